@@ -628,6 +628,21 @@ def mon_journal(steps, meta):
                 # [ts] [label] [pid] path
                 if not (1 <= len(f) <= 4) or f[-1] == "":
                     return "malformed journal line %r" % l
+                if meta.get("stamps"):
+                    # the last field is the path of the event: the absolute path of an exec / write event, or the
+                    # path of a queue event relative to the common parent (a project: its directory)
+                    known_abs = set()
+                    for x in steps:
+                        if x.op in ("exec", "write") and len(x.tok) > 2:
+                            a = unhexs(x.tok[2])
+                            while a.count("/") > 2:
+                                known_abs.add(a)
+                                a = a.rsplit("/", 1)[0]
+                    last = f[-1]
+                    if not (last in known_abs or any(a.endswith("/" + last) for a in known_abs)):
+                        return "journal line %r does not end with the path of an event (fields must be separated by tabs)" % l
+                    if len(f) >= 2 and not f[-2].isdigit() and len(f) >= 3 and f[-2] == "":
+                        return "journal line %r has an empty field" % l
                 if meta.get("stamps") and stamps:
                     good = [x for x in stamps if (x == "" or l.startswith(x + "\t"))]
                     bad = [x for x in wrong - stamps if x != "" and l.startswith(x + "\t") and not any(g != "" for g in good)]
@@ -746,7 +761,18 @@ def mon_bursts(steps, meta):
     clock = wc.CLOCK0
     prev = None
     between = []
+    debs, bound = {}, None       # the debounce in force follows accepted rewrites of the configuration file
     for st in steps:
+        if st.op == "cfg":
+            for t in st.tok[2:]:
+                if t.startswith("deb="):
+                    debs[st.tok[1]] = int(t[4:])
+        elif st.op == "cfgbind":
+            bound = st.tok[1]
+        elif st.op == "start" and st.result == "ok" and st.tok[1] in debs:
+            deb = debs[st.tok[1]]
+        elif st.op == "write" and st.result == "ok" and len(st.tok) > 2 and unhexs(st.tok[2]) == CANON_ROOT + "/w/cfg/klunok.lua" and bound in debs:
+            deb = debs[bound]
         if st.op == "tick":
             clock += int(st.tok[1])
         if st.op in HANDLER_OPS:
@@ -1012,7 +1038,7 @@ MONITORS.update({
 # ------------------------------------------------------------------ standard main for world properties
 
 def standard_main(rep, cases=None, monitors=(), crash_monitors=None, fault_monitors=None, crash=False, fault=False,
-                  rule="", only=None, known=None, nontrivial=None):
+                  rule="", only=None, known=None, nontrivial=None, extra=None):
     """cases: [(cid, script, meta)] random / structured histories.
     crash / fault: also enumerate every call index of the scenario families.
     known: f(case meta, message) -> finding id or None (open known findings)."""
@@ -1023,6 +1049,12 @@ def standard_main(rep, cases=None, monitors=(), crash_monitors=None, fault_monit
     dist = {}
     samples = []
     if exe_impl:
+        if extra:
+            # a property-specific phase (pure driver cases, ...): returns (found, validated, total)
+            f, v, t = extra(rep, exe_impl, exe_model)
+            found = found or f
+            validated += v
+            total += t
         if cases:
             f, v = run_cases(rep, exe_impl, exe_model, cases, list(monitors))
             found = found or f
